@@ -47,6 +47,8 @@ def dispatch (op : String) (args : List String) : String :=
                 | some r => r
                 | none => match effectDispatch op args with
                   | some r => r
-                  | none => "(err bad-op)"
+                  | none => match convDispatch op args with
+                    | some r => r
+                    | none => "(err bad-op)"
 
 end XV.Driver
